@@ -7,8 +7,8 @@
    value is characterised (C13_update_H_same_Tref).  PARTIAL: the entropy
    analogue and whole include trees are decided by the tree oracle and the
    correspondence of this check. *)
-From Coq Require Import List NArith Bool Reals Lra.
-From PG Require Import Common.Strs Thermo.Num Thermo.RawData Thermo.RawData_proofs Thermo.Merge Thermo.Merge_proofs Thermo.Merge_lib_proofs.
+From Coq Require Import List NArith Bool Reals Lra Permutation.
+From PG Require Import Common.Strs Thermo.Num Thermo.RawData Thermo.RawData_proofs Thermo.Merge Thermo.Merge_proofs Thermo.Merge_lib_proofs Thermo.Merge_perm_proofs.
 Import ListNotations.
 Local Open Scope R_scope.
 
@@ -191,3 +191,37 @@ Theorem C13_loaded_keys_unique : forall splint quadS lnr isclose f l,
   load (K:=Rops) splint quadS lnr isclose f = Ok l -> NoDup (map fst l).
 Proof. exact load_keys. Qed.
 Print Assumptions C13_two_includes_order_free.
+
+(* ---------- any number of libraries, any order (round 4) ---------- *)
+(* "holds, for every group, the union of the data given for it in all the files": after an accepted sequence of merges of the
+   libraries xs into a, a group exists iff somebody gives it, and its heat-capacity table maps T to v exactly if a or one of the
+   xs maps T to v for that group.  No bound on the number of libraries, groups or table points. *)
+Theorem C13_library_sequence_is_union : forall splint quadS lnr isclose a xs r,
+  Forall (fun x => NoDup (map fst x)) xs ->
+  Forall (fun x => forall g c, lib_get (K:=Rops) x g = Some c -> NoDup (map fst (i_tab c))) xs ->
+  lupd_seq splint quadS lnr isclose a xs = Some r -> forall g,
+  match lib_get (K:=Rops) r g with
+  | None => lib_get (K:=Rops) a g = None /\ forall x, In x xs -> lib_get (K:=Rops) x g = None
+  | Some c => forall T v, tab_get (K:=Rops) (i_tab c) T = Some v <->
+                exists l cs, In l (a :: xs) /\ lib_get (K:=Rops) l g = Some cs /\ tab_get (K:=Rops) (i_tab cs) T = Some v
+  end.
+Proof. exact lib_seq_union. Qed.
+Print Assumptions C13_library_sequence_is_union.
+
+(* "whatever the include order": two accepted merge sequences over lists of libraries that are permutations of each other leave
+   every group with the same table (as a map) and the same valid range *)
+Theorem C13_library_any_order : forall splint quadS lnr isclose a xs ys r1 r2, Permutation xs ys ->
+  Forall (fun x => NoDup (map fst x)) xs ->
+  Forall (fun x => forall g c, lib_get (K:=Rops) x g = Some c -> NoDup (map fst (i_tab c))) xs ->
+  lupd_seq splint quadS lnr isclose a xs = Some r1 -> lupd_seq splint quadS lnr isclose a ys = Some r2 ->
+  forall g, same_group (lib_get (K:=Rops) r1 g) (lib_get (K:=Rops) r2 g).
+Proof. exact lib_perm_order_free. Qed.
+Print Assumptions C13_library_any_order.
+
+(* a library file with any number of includes, listed in any order (both orders load): same tables, same ranges *)
+Theorem C13_includes_any_order : forall splint quadS lnr isclose gs incs incs' L L', Permutation incs incs' ->
+  (forall i l g c, In i incs -> load (K:=Rops) splint quadS lnr isclose i = Ok l -> lib_get (K:=Rops) l g = Some c -> NoDup (map fst (i_tab c))) ->
+  load (K:=Rops) splint quadS lnr isclose (File gs incs) = Ok L -> load (K:=Rops) splint quadS lnr isclose (File gs incs') = Ok L' ->
+  forall g, same_group (lib_get (K:=Rops) L g) (lib_get (K:=Rops) L' g).
+Proof. exact includes_perm_order_free. Qed.
+Print Assumptions C13_includes_any_order.
